@@ -484,3 +484,42 @@ def pixels(cl, start=None, end=None, solution=None, show_endpoints=True, show_so
 
 def ascii_of(img: np.ndarray) -> str:
     return "\n".join("".join(ASCII_OF.get(tuple(int(v) for v in px), "?") for px in row) for row in img)
+
+
+def raster_pair(cl, solution, remove_isolated_cells=True, extend_pixels=True, endpoints_as_open=False):
+    """expected (input, target) images of C17 and, for each, a mask of pixels where the statement is ambiguous
+    (a coloured start/end pixel taking part in the 'no open 4-neighbour' rule): returns (inp, tgt, amb_inp, amb_tgt)"""
+    sol = [tuple(int(x) for x in p) for p in solution]
+    s, e = sol[0], sol[-1]
+    inp = pixels(cl, s, e, None, True, False)
+    tgt = np.zeros_like(inp)
+    for p in sol:
+        tgt[2 * p[0] + 1, 2 * p[1] + 1] = OPEN
+    for a, b in zip(sol[:-1], sol[1:]):
+        tgt[a[0] + b[0] + 1, a[1] + b[1] + 1] = OPEN
+    tgt[2 * s[0] + 1, 2 * s[1] + 1] = OPEN if endpoints_as_open else START
+    tgt[2 * e[0] + 1, 2 * e[1] + 1] = OPEN if endpoints_as_open else END
+    outs = []
+    for img in (inp, tgt):
+        amb = np.zeros(img.shape[:2], dtype=bool)
+        if remove_isolated_cells:
+            nonwall = (img != 0).any(axis=-1)
+            strict_open = (img == 255).all(axis=-1)
+            H, W = nonwall.shape
+
+            def isolated(mask_self, mask_nb):
+                pad = np.pad(mask_nb, 1, constant_values=False)
+                has_nb = pad[1:-1, 2:] | pad[1:-1, :-2] | pad[2:, 1:-1] | pad[:-2, 1:-1]
+                return mask_self & ~has_nb
+
+            iso_a = isolated(nonwall, nonwall)          # reading A: open = not wall
+            iso_b = isolated(strict_open, strict_open)  # reading B: open = the OPEN colour only
+            amb = iso_a ^ iso_b
+            img = img.copy()
+            img[iso_a] = WALL
+        if extend_pixels:
+            img = np.repeat(np.repeat(img, 2, axis=0), 2, axis=1)
+            img = np.pad(img, ((1, 1), (1, 1), (0, 0)), constant_values=0)
+            amb = np.pad(np.repeat(np.repeat(amb, 2, axis=0), 2, axis=1), 1, constant_values=False)
+        outs.append((img, amb))
+    return outs[0][0], outs[1][0], outs[0][1], outs[1][1]
